@@ -219,6 +219,21 @@ PROPS["C11"] = {
     "level_note": "Partial: inotify semantics, queue overflow, goroutine scheduling and timing are the kernel's and runtime's; the model covers one directory (directories are independent in watch.update).",
 }
 
+PROPS["C08"] = {
+    "level": "proof",
+    "streams": ["crash", "parser", "annot", "validate", "apply", "schema"],
+    "clauses": "panic|hang|died|stopped|without-error-entry",
+    "timeout": 3600,
+    "trusted_base": ["the JSON/YAML decoders (encoding/json, sigs.k8s.io/yaml, gopkg.in/yaml) and gojsonschema are not modelled: their totality on arbitrary bytes is searched, not proved",
+                     "a Go slice-bounds / nil-dereference panic of the modelled functions is a Res.panic outcome of the model (checked by the per-property correspondence streams: parser, annot, validate, apply)",
+                     "Go runtime: an unrecovered panic on any goroutine terminates the process (observed in a child process for the watcher goroutine)"],
+    "assumptions": ["'hang' = an entry point does not return within 20 s (60 s for a batch of files fed to an auto-refresh cache)",
+                    "OCI specs and edits are finite values; host device lookups are any function"],
+    "technique": "Lean 4 proof: union of the totality theorems of the models (validation and minimum version on every decoded value incl. null entries; names; annotations; directory scan; apply on everything validation admits, via 'admitted => no nil entry'); crash stream: byte-mutated .json/.yaml documents, names and annotation maps through every entry point C08 names, incl. auto-refresh caches in a child process",
+    "level_text": "Kernel-checked theorems: for every value of the decoded data model (any strings, null list entries, any integers) validation and the minimum-version computation return without a panic outcome; everything validation admits has no null entries and applying its Spec-level and device edits to any OCI spec on any host never panics; the name parser/validators, ParseAnnotations, AnnotationKey and UpdateAnnotations return a result for every byte string / map; a directory scan completes whatever its entries are. Tied to the code by the correspondence streams of C03/C05/C07/C15/C17 (each compares panics too) and by a crash stream: thousands of byte-level mutations of JSON and YAML Spec documents (incl. deep nesting, alias bombs, nulls, huge numbers, invalid UTF-8), written as .json/.yaml and passed to ReadSpec, ParseSpec, schema validation (data, reader, file, typed), MinimumRequiredVersion, Cache.Refresh + InjectDevices of every loaded device into several OCI specs, under recover and a deadline; batches of the same files fed to an auto-refresh cache in a child process, after which a valid Spec must still be picked up by the background goroutine; mutated names and annotation maps through every parser/annotation entry point.",
+    "level_note": "Partial: the decoders and the schema library are searched, not proved; 'never hangs' is a deadline in the search and structural termination in the models.",
+}
+
 PROPS["C12"] = {
     "level": "proof",
     "streams": ["race"],
